@@ -13,6 +13,8 @@ OpsAll == {"append", "overwrite", "remove", "wrg"}
 OpsAppend == {"append"}
 (* appends through write(append=True) interleaved with changes made through a handle (write_row_groups, remove_row_groups) *)
 OpsMixed == {"append", "wrg", "remove"}
+(* appends after removals: a removed non-last row group leaves a HOLE in the part numbers the next append must not reuse *)
+OpsAppendRemove == {"append", "remove"}
 FramesOne == { <<{1}>>, <<{1,2}>> }
 BoolBoth == {TRUE, FALSE}
 OnlyPartitioned == {TRUE}
